@@ -130,6 +130,11 @@ class Report:
             self.violations.append(dict(property=self.pid, driver="mc:" + name, clause=",".join(r.violated),
                                         scenario={"cls": {"model": name}, "counterexample": tail}))
 
+    def add_proof(self, theorem):
+        """unbounded version of a model-checked law, discharged by the TLA+ proof system (spec/proofs/Proofs.tla)"""
+        r = tlc.prove()
+        self.extra.setdefault("proofs", []).append(dict(theorem=theorem, **r))
+
     # -- trace validation
     def add_tv(self, driver, module, scenarios, traces, verdicts, family=None, sample_every=None):
         """family: regex of clause names this property owns (None = all). Rejections by other clauses are
